@@ -231,6 +231,20 @@ def arrays(case):
     F = [conv(dec(x)) for x in case['F']]
     FJ = [conv(dec(x)) for x in case['FJ']]
     U = [conv(dec(x)) for x in case['U']]
+    per_user = (case.get('present') or {}).get('arr_per_user')
+    if per_user:        # R10: the matrices of the users differ in element type
+        def one(a, nm):
+            d = ARR_DTYPES[nm]
+            if nm.startswith('complex'):
+                return np.asarray(a, dtype=d)
+            if nm.startswith('float'):
+                return np.asarray(np.real(a), dtype=d)
+            return np.asarray(np.real(a)).round().astype(d)
+        F = [one(dec(x), per_user[k]) for k, x in enumerate(case['F'])]
+        FJ = [one(dec(x), per_user[k]) for k, x in enumerate(case['FJ'])]
+        U = [one(dec(x), per_user[k] if (per_user[k].startswith('complex') or not np.any(np.imag(dec(x))))
+                 and not (per_user[k] == 'uint8' and np.any(np.real(dec(x)) < 0)) else 'complex128')
+             for k, x in enumerate(case['U'])]
     return big, F, FJ, U
 
 
@@ -407,11 +421,34 @@ def p_values(case):
     return [float(x) for x in a]
 
 
+def by_keyword(case):
+    return ((case.get('present') or {}).get('call') or case.get('call')) == 'keyword'
+
+
 def build_channel(case):
     mu, _, _ = _impl()
     big = presented(case)[0]
     Nr = dims_arg(case, case['Nr'])
     Nt = dims_arg(case, case['Nt'])
+    if by_keyword(case):
+        if case['ext']:
+            ch = mu.MultiUserChannelMatrixExtInt()
+            ch.init_from_channel_matrix(channel_matrix=big, Nr=Nr, Nt=Nt, K=k_arg(case),
+                                        NtE=dims_arg(case, case['NtE'], scalar_ok=len(case['NtE']) == 1))
+            if case['pl'] is not None:
+                pl, ple = pl_args(case)
+                ch.set_pathloss(pathloss_matrix=pl, ext_int_pathloss=ple)
+            else:
+                ch.set_pathloss(pathloss_matrix=None, ext_int_pathloss=None)      # explicitly the default
+        else:
+            ch = mu.MultiUserChannelMatrix()
+            ch.init_from_channel_matrix(channel_matrix=big, Nr=Nr, Nt=Nt, K=k_arg(case))
+            if case['pl'] is not None:
+                ch.set_pathloss(pathloss_matrix=pl_args(case)[0])
+            else:
+                ch.set_pathloss()           # left at its default
+        ch.noise_var = noise_arg(case)
+        return ch
     if case['ext']:
         ch = mu.MultiUserChannelMatrixExtInt()
         ch.init_from_channel_matrix(big, Nr, Nt, k_arg(case), dims_arg(case, case['NtE'], scalar_ok=len(case['NtE']) == 1))
@@ -462,7 +499,15 @@ def eval_channel(ch, case, jp):
     Fs = seq(case, FJ if jp else F)
     Us = seq(case, U)
     pe = pe_args(case)
-    if jp:
+    if by_keyword(case):       # R8: every documented parameter by keyword
+        kw = {'pe': pe[0]} if pe else {}
+        if jp:
+            s = call_guard(lambda: ch.calc_JP_SINR(F=Fs, U=Us, **kw))
+            q = [ch.calc_JP_Q(k=idx(case, k), F_all_users=Fs, **kw) for k in range(case['K'])]
+        else:
+            s = call_guard(lambda: ch.calc_SINR(F=Fs, U=Us, **kw))
+            q = [ch.calc_Q(k=idx(case, k), F_all_users=Fs, **kw) for k in range(case['K'])]
+    elif jp:
         s = call_guard(lambda: ch.calc_JP_SINR(Fs, Us, *pe))
         q = [ch.calc_JP_Q(idx(case, k), Fs, *pe) for k in range(case['K'])]
     else:
@@ -681,6 +726,10 @@ def variant_tag(case):
     it = pr.get('idx') or case.get('idx')
     if it not in (None, 'int'):
         tag += ':idx-' + it
+    if pr.get('arr_per_user'):
+        tag += ':R10-' + '+'.join(sorted(set(pr['arr_per_user'])))
+    if by_keyword(case):
+        tag += ':by-keyword'
     if case.get('rclass'):
         tag += ':' + case['rclass']
     return tag
@@ -757,6 +806,8 @@ def o_scale(case):
             U[k] = U[k] * sc[None, :]
         c2['U'] = [enc(u) for u in U]
         c2['dtype'] = 'complex'
+        if c2.get('present'):
+            c2['present'] = dict(c2['present'], arr=None, arr_per_user=None)
         got2, _ = run_channel(c2, jp)
         if got[0] != got2[0]:
             return ('scale-variant:' + variant_tag(case), '%s -> %s' % (got, got2))
@@ -1544,7 +1595,8 @@ class Gen:
                 'F': [enc(f) for f in F], 'FJ': [enc(f) for f in FJ], 'U': [enc(u) for u in U],
                 'P': P, 'scale': scale, 'dtype': rng.choice(['int', 'float', 'complex']) if kind == 'rint' else 'complex',
                 'as_list': rng.chance(0.2), 'set_W': rng.chance(0.3),
-                'ntype': 'float', 'petype': 'float', 'ptype': 'float', 'idx': rng.choice(IDX_TYPES)}
+                'ntype': 'float', 'petype': 'float', 'ptype': 'float', 'idx': rng.choice(IDX_TYPES),
+                'call': rng.choice(['positional', 'keyword'])}
         if retype:
             self.retype(case)
         return case
@@ -1701,17 +1753,62 @@ class Gen:
         c['rclass'] = 'R6'
         return c
 
+    def r10_case(self):
+        """R10: the per-user matrices differ in ELEMENT TYPE inside one list (first integer, later complex,
+        float32 next to complex128, …); nothing may be truncated to the type of the first element"""
+        rng = self.rng
+        c = self.case(kind='gint', solver_ok=True, K=rng.choice([2, 3, 4]))
+        K = c['K']
+        real_types = ['int8', 'int16', 'int64', 'float32', 'float64', 'uint8']
+        per = []
+        for k in range(K):
+            if k == 0 or rng.chance(0.4):       # this user's matrices are real (integer valued)
+                t = rng.choice(real_types)
+                for f in ('F', 'FJ'):
+                    m = np.real(dec(c[f][k]))
+                    c[f][k] = enc((np.abs(m) if t == 'uint8' else m).astype(complex))
+                per.append(t)
+            else:
+                per.append(rng.choice(['complex128', 'complex64']))
+        if all(not p.startswith('complex') for p in per):
+            per[-1] = 'complex128'
+        u_real = [not np.any(np.imag(dec(x))) for x in c['U']]
+        self.present(c, arr=None, layout=None)
+        c['present']['arr_per_user'] = per
+        c['dtype'] = 'complex'
+        if c['P'] is not None and rng.chance(0.5):
+            c['ptype'] = 'list'
+        c['rclass'] = 'R10'
+        del u_real
+        return c
+
+    def r14_case(self, which):
+        """R14: counts above 256 — streams of one user, external interference sources (many users: bigk_case)"""
+        rng = self.rng
+        n = rng.choice([257, 258, 300])
+        if which == 'many-streams':
+            c = self.case(kind='gauss', K=2, dims=([2, 3], [3, 2], [n, 2]), retype=False)
+        else:
+            c = self.case(kind='gauss', ext=True, K=2, dims=([2, 1], [1, 2], [1, 2]), NtE=[1] * n, retype=False)
+            if c['pl'] is not None:
+                c['ple'] = [[10.0 ** rng.uniform(-1, 0.3) for _ in range(n)] for _ in range(2)]
+        c['r14'] = which
+        c['rclass'] = 'R14'
+        c['solver'] = False
+        return c
+
     def bigk_case(self, ext=None):
         """more than 256 single-antenna users: receiver indices above 256 (Python ints that are not the
         interpreter's cached small-int objects, numpy integers that need 16 bits)"""
         rng = self.rng
-        K = rng.randint(258, 262)
+        K = rng.choice([257, 258, 259, 300])
         c = self.case(kind='gauss', ext=rng.chance(0.5) if ext is None else ext, K=K,
                       dims=([1] * K, [1] * K, [1] * K), NtE=[1], retype=False)
         c['pl'] = c['ple'] = None
         c['noise'] = 0.5
         c['P'] = None
-        c['ks'] = [0, 255, 256, 257, K - 1]
+        c['ks'] = sorted(set([0, 255, 256, K - 1] + ([257] if K > 257 else [])))
+        c['r14'] = 'many-users'
         c['idx'] = 'bigint'
         c['solver'] = False
         c['rclass'] = 'R1'
@@ -1849,6 +1946,11 @@ def branches_of(ctx, case):
     ctx.branch('dtype:' + case.get('dtype', 'complex'))
     pr = case.get('present') or {}
     ctx.branch('R1:idx-' + (pr.get('idx') or case.get('idx') or 'int'))
+    ctx.branch('R8:call-' + ('keyword' if by_keyword(case) else 'positional'))
+    if pr.get('arr_per_user'):
+        ctx.branch('R10:mixed-element-types')
+    if case.get('r14'):
+        ctx.branch('R14:' + case['r14'])
     if pr.get('arr'):
         ctx.branch('R1:arr-' + pr['arr'])
     if pr.get('layout'):
@@ -2224,10 +2326,12 @@ def gen_rcases(ctx, n):
     g = Gen(ctx.rng.fork('rclasses'), ctx.tier)
     out = []
     for i in range(n):
-        for mk in (g.r1_case, g.r2_case, g.r5_case, g.r6_case):
+        for mk in (g.r1_case, g.r2_case, g.r5_case, g.r6_case, g.r10_case):
             c = mk()
             c['solver'] = all(0 < c['Ns'][k] <= min(c['Nr'][k], c['Nt'][k]) for k in range(c['K']))
             out.append(c)
+    out.append(g.r14_case('many-streams'))
+    out.append(g.r14_case('many-ext-sources'))
     return out
 
 
